@@ -4,6 +4,7 @@ package vt
 import (
 	"bufio"
 	"encoding/json"
+	"fmt"
 	"os"
 	"reflect"
 	"strconv"
@@ -52,12 +53,13 @@ func norm(v any) any {
 type Ev map[string]any
 
 type Writer struct {
-	mu  sync.Mutex
-	f   *os.File
-	w   *bufio.Writer
-	n   int
-	tr  int
-	err error
+	mu    sync.Mutex
+	f     *os.File
+	w     *bufio.Writer
+	n     int
+	tr    int
+	err   error
+	bytes int64
 }
 
 func Open(path string) (*Writer, error) {
@@ -89,6 +91,11 @@ func (t *Writer) emitLocked(ev Ev) {
 	t.w.WriteByte('\n')
 	t.w.Flush() // a crash of the code under test must not lose the events that led to it
 	t.n++
+	if t.bytes += int64(len(b)) + 1; t.bytes > 6<<30 {
+		// a driver that logs without end (code under test spinning): the disk is not ours to fill
+		fmt.Fprintln(os.Stderr, "vt: trace larger than 6 GB, giving up (machinery limit, not a verdict)")
+		os.Exit(4)
+	}
 }
 
 // Reset starts a new trace (a new "tr" id) with a Reset event carrying the given fields.
